@@ -1,268 +1,6 @@
 /-
 C05 — Multilevel estimator = sum of per-level means over exactly the simulated samples.
-Property theorems about RpylibModel/Model/Mlmc.lean (helper lemmas are local `private` statements at the top).
-All theorems are for every scripted process `p`, every oracle history and every initial configuration.
+Property theorems about RpylibModel/Model/Mlmc.lean and RpylibModel/Model/MlmcCv.lean; they live in the lemma files
+imported here: Lemmas/C05Core.lean (payoff arrays and counters, every history), Lemmas/C05Cv.lean (control-variate path).
 -/
-import RpylibModel.Model.Mlmc
-import Mathlib.Tactic.Linarith
-import Mathlib.Tactic.Ring
-import Mathlib.Algebra.Order.Field.Rat
-
-namespace Rpylib.Mlmc
-
-/-- rows 0 … N−1 hold the samples simulated at level l, in simulation order -/
-def samplesOf (p : Proc) (l N : Nat) : List Row := (List.range N).map (fun k => some (p.sample l k))
-
-/-- loop-head invariant of one level: the N simulated samples, in order, followed by exactly dN pads;
-    and the process has simulated exactly N samples -/
-def LvlInv (p : Proc) (l : Nat) (lv : Lvl) : Prop :=
-  lv.rows = samplesOf p l lv.N ++ List.replicate lv.dN none ∧ lv.sim = lv.N
-
-/-- what must hold whenever results are read: the array is exactly the simulated samples — no placeholder,
-    nothing dropped, duplicated or overwritten -/
-def LvlClean (p : Proc) (l : Nat) (lv : Lvl) : Prop :=
-  lv.rows = samplesOf p l lv.N ∧ lv.sim = lv.N
-
-def Inv (p : Proc) (s : St) : Prop := ∀ l, l ≤ s.L → LvlInv p l (s.lv l)
-def Clean (p : Proc) (s : St) : Prop := ∀ l, l ≤ s.L → LvlClean p l (s.lv l)
-
-/-! ### helper lemmas -/
-
-private theorem samplesOf_length (p : Proc) (l N : Nat) : (samplesOf p l N).length = N := by
-  simp [samplesOf]
-
-private theorem samplesOf_succ (p : Proc) (l N : Nat) :
-    samplesOf p l (N + 1) = samplesOf p l N ++ [some (p.sample l N)] := by
-  simp [samplesOf, List.range_succ]
-
-private theorem writeFrom_spec (mk : Nat → Sample) (n : Nat) :
-    ∀ (pre : List Row) (cnt : Nat) (post : List Row),
-      writeFrom mk pre.length cnt n (pre ++ List.replicate n none ++ post)
-        = pre ++ (List.range n).map (fun i => some (mk (cnt + i))) ++ post := by
-  induction n with
-  | zero => intro pre cnt post; simp [writeFrom]
-  | succ n ih =>
-    intro pre cnt post
-    have hset : (pre ++ List.replicate (n + 1) none ++ post).set pre.length (some (mk cnt))
-        = (pre ++ [some (mk cnt)]) ++ List.replicate n none ++ post := by
-      simp [List.replicate_succ]
-    rw [writeFrom, hset]
-    have hlen : pre.length + 1 = (pre ++ [some (mk cnt)]).length := by simp
-    rw [hlen, ih (pre ++ [some (mk cnt)]) (cnt + 1) post]
-    simp only [List.range_succ_eq_map, List.map_cons, List.map_map, List.append_assoc, List.singleton_append,
-      Nat.add_zero]
-    congr 3
-    apply List.map_congr_left
-    intro i _; simp [Function.comp]; congr 1; omega
-
-private theorem samplesOf_add (p : Proc) (l N d : Nat) :
-    samplesOf p l (N + d) = samplesOf p l N ++ (List.range d).map (fun i => some (p.sample l (N + i))) := by
-  induction d with
-  | zero => simp
-  | succ d ih =>
-    rw [← Nat.add_assoc, samplesOf_succ, ih, List.range_succ, List.map_append]
-    simp
-
-/-! ### one level -/
-
-/-- a pass turns the pads into exactly the newly simulated samples -/
-theorem passLvl_clean (p : Proc) (l : Nat) (lv : Lvl) (h : LvlInv p l lv) : LvlClean p l (passLvl p l lv) := by
-  obtain ⟨hr, hs⟩ := h
-  refine ⟨?_, by simp [passLvl, hs]⟩
-  have := writeFrom_spec (p.sample l) lv.dN (samplesOf p l lv.N) lv.sim []
-  simp only [List.append_nil, samplesOf_length] at this
-  simp only [passLvl]
-  rw [hr, this, hs, samplesOf_add]
-
-/-- re-computing `dN` and zero-padding re-establishes the loop-head invariant -/
-theorem extend_inv (p : Proc) (l : Nat) (lv : Lvl) (d : Nat) (h : LvlClean p l lv) :
-    LvlInv p l (extendLvl { lv with dN := d }) := by
-  obtain ⟨hr, hs⟩ := h
-  refine ⟨?_, hs⟩
-  simp only [extendLvl]
-  rw [hr, samplesOf_length]
-  congr 2; omega
-
-/-- a level appended with counter 0 and an empty array satisfies the invariant after padding -/
-theorem newLevel_inv (p : Proc) (l d : Nat) : LvlInv p l (extendLvl ⟨[], 0, d, 0, 0⟩) := by
-  refine ⟨?_, rfl⟩
-  simp [extendLvl, samplesOf]
-
-/-! ### the loop -/
-
-theorem init_inv (p : Proc) (L0 N0 levelMax newInit : Nat) : Inv p (init L0 N0 levelMax newInit) := by
-  intro l _; exact ⟨by simp [init, samplesOf], rfl⟩
-
-/-- every array is clean right after the passes — this is where `set_mlmc_results` reads them (engine.py:237) -/
-theorem afterPasses_clean (p : Proc) (s : St) (h : Inv p s) : Clean p (afterPasses p s) := by
-  intro l hl
-  have hl' : l ≤ s.L := hl
-  simp only [afterPasses, hl', if_true]
-  exact passLvl_clean p l _ (h l hl')
-
-private theorem setDN_clean (p : Proc) (Ns : List Nat) (s : St) (h : Clean p s) : Clean p (setDN Ns s) := by
-  intro l hl; exact h l hl
-
-private theorem extendAll_setDN_inv (p : Proc) (Ns : List Nat) (s : St) (h : Clean p s) :
-    Inv p (extendAll (setDN Ns s)) := by
-  intro l hl
-  have hl' : l ≤ s.L := hl
-  simp only [extendAll, setDN, hl', if_true]
-  exact extend_inv p l (s.lv l) _ (h l hl')
-
-private theorem extendAll_addLevel_inv (p : Proc) (Ns : List Nat) (s : St) (h0 : s.newInit = 0) (h : Clean p s) :
-    Inv p (extendAll (setDN Ns (addLevel s))) := by
-  intro l hl
-  have hl' : l ≤ s.L + 1 := hl
-  simp only [extendAll, setDN, addLevel, hl', if_true]
-  by_cases hnew : l = s.L + 1
-  · subst hnew; simp only [if_true, h0, Nat.sub_zero]; exact newLevel_inv p _ _
-  · simp only [hnew, if_false]
-    exact extend_inv p l (s.lv l) _ (h l (by omega))
-
-private theorem sum_zero_mem (l : List Nat) (h : l.sum = 0) : ∀ x ∈ l, x = 0 := by
-  induction l with
-  | nil => intro x hx; cases hx
-  | cons a t ih =>
-    simp only [List.sum_cons] at h
-    intro x hx
-    rcases List.mem_cons.mp hx with rfl | hx
-    · omega
-    · exact ih (by omega) x hx
-
-private theorem dN_zero_of_sum (s : St) (h : ¬ sumDN s > 0) (l : Nat) (hl : l ≤ s.L) : (s.lv l).dN = 0 := by
-  have : sumDN s = 0 := by omega
-  unfold sumDN at this
-  exact sum_zero_mem _ this _ (List.mem_map.mpr ⟨l, List.mem_range.mpr (by omega), rfl⟩)
-
-/-- the loop head: continue with the invariant, or fall out of the loop with clean arrays -/
-theorem loopHead_inv (p : Proc) (s : St) (h0 : s.newInit = 0) (h : Inv p s) :
-    match loopHead s with
-    | .cont s' => Inv p s' ∧ s'.newInit = 0
-    | .ret s' => Clean p s' := by
-  unfold loopHead
-  by_cases hs : sumDN s > 0
-  · rw [if_pos hs]; exact ⟨h, h0⟩
-  · rw [if_neg hs]
-    intro l hl
-    obtain ⟨hr, hsim⟩ := h l hl
-    exact ⟨by rw [hr, dN_zero_of_sum s hs l hl]; simp, hsim⟩
-
-/-- **one iteration**: from the loop-head invariant, either the loop continues with the invariant, or it returns
-    and the arrays the results are read from are exactly the simulated samples. -/
-theorem iter_inv (p : Proc) (o : Oracle) (s : St) (h0 : s.newInit = 0) (h : Inv p s) :
-    match iter p o s with
-    | .cont s' => Inv p s' ∧ s'.newInit = 0
-    | .ret s' => Clean p s' := by
-  have hc := setDN_clean p o.Ns _ (afterPasses_clean p s h)
-  have hn : (setDN o.Ns (afterPasses p s)).newInit = 0 := h0
-  unfold iter
-  simp only
-  by_cases hsm : small (setDN o.Ns (afterPasses p s)) = true
-  · rw [if_pos hsm]
-    by_cases hcv : (o.conv || (setDN o.Ns (afterPasses p s)).L == (setDN o.Ns (afterPasses p s)).levelMax) = true
-    · rw [if_pos hcv]; exact hc
-    · rw [if_neg hcv]
-      exact loopHead_inv p _ h0 (extendAll_addLevel_inv p o.Ns2 _ hn hc)
-  · rw [if_neg hsm]
-    exact loopHead_inv p _ h0 (extendAll_setDN_inv p o.Ns _ (afterPasses_clean p s h))
-
-/-- **every history**: whatever sequence of sample-size updates, convergence verdicts and level additions the run
-    goes through, when it returns the arrays are exactly the simulated samples, and while it is still running
-    the loop-head invariant holds. -/
-theorem run_rows_are_samples (p : Proc) (os : List Oracle) (s : St) (h0 : s.newInit = 0) (h : Inv p s) :
-    match run p os s with
-    | .cont s' => Inv p s'
-    | .ret s' => Clean p s' := by
-  induction os generalizing s with
-  | nil => exact h
-  | cons o os ih =>
-    have hi := iter_inv p o s h0 h
-    unfold run
-    cases hit : iter p o s with
-    | cont s' => rw [hit] at hi; exact ih s' hi.2 hi.1
-    | ret s' => rw [hit] at hi; exact hi
-
-/-- the statement for `Engine.price` from its actual initial state (new levels start at counter 0) -/
-theorem price_rows_are_samples (p : Proc) (L0 N0 levelMax : Nat) (os : List Oracle) :
-    match price p L0 N0 levelMax 0 os with
-    | .cont s' => Inv p s'
-    | .ret s' => Clean p s' := by
-  have hl := loopHead_inv p (init L0 N0 levelMax 0) rfl (init_inv p L0 N0 levelMax 0)
-  unfold price
-  cases hh : loopHead (init L0 N0 levelMax 0) with
-  | cont s' => rw [hh] at hl; exact run_rows_are_samples p os s' hl.2 hl.1
-  | ret s' => rw [hh] at hl; exact hl
-
-/-- fixed-level variant: every level's array is exactly its `mc` simulated samples -/
-theorem fixedRun_clean (p : Proc) (maxLevel mc : Nat) : Clean p (fixedRun p maxLevel mc) := by
-  apply afterPasses_clean
-  intro l _; exact ⟨by simp [samplesOf], rfl⟩
-
-/-! ### consequences for the reported numbers -/
-
-private theorem listSum_append (a b : List Rat) : listSum (a ++ b) = listSum a + listSum b := by
-  induction a with
-  | nil => simp [listSum]
-  | cons x t ih => simp only [listSum, List.cons_append, List.foldr_cons] at ih ⊢; rw [ih]; ring
-
-/-- reported `N_l` = number of rows = number of samples simulated at the level -/
-theorem clean_counts (p : Proc) (l : Nat) (lv : Lvl) (h : LvlClean p l lv) :
-    lv.rows.length = lv.N ∧ lv.sim = lv.N := ⟨by rw [h.1, samplesOf_length], h.2⟩
-
-/-- every simulated sample sits in exactly one row (row k holds sample k), so none is dropped or duplicated -/
-theorem clean_row (p : Proc) (l : Nat) (lv : Lvl) (h : LvlClean p l lv) (k : Nat) (hk : k < lv.N) :
-    lv.rows[k]? = some (some (p.sample l k)) := by
-  rw [h.1]; simp [samplesOf, hk]
-
-/-- no placeholder row is ever part of a clean array -/
-theorem clean_no_pad (p : Proc) (l : Nat) (lv : Lvl) (h : LvlClean p l lv) : none ∉ lv.rows := by
-  rw [h.1]; simp [samplesOf]
-
-/-- the level mean is the sample mean over exactly the N simulated samples -/
-theorem clean_mean (p : Proc) (l : Nat) (lv : Lvl) (h : LvlClean p l lv) (f : Row → Rat) :
-    meanOf f lv.rows = listSum ((List.range lv.N).map (fun k => f (some (p.sample l k)))) / lv.N := by
-  unfold meanOf; rw [h.1, samplesOf_length]; simp [samplesOf, Function.comp_def]
-
-/-- coarse payoff identically zero at level 0 -/
-theorem level0_coarse_zero (p : Proc) (lv : Lvl) (h : LvlClean p 0 lv) : meanOf rowCoarse lv.rows = 0 := by
-  rw [clean_mean p 0 lv h]
-  have : (List.range lv.N).map (fun k => rowCoarse (some (p.sample 0 k))) = (List.range lv.N).map (fun _ => (0:Rat)) := by
-    apply List.map_congr_left; intro k _; simp [rowCoarse, Proc.sample]
-  rw [this]
-  have hz : ∀ n : Nat, listSum ((List.range n).map (fun _ => (0:Rat))) = 0 := by
-    intro n; induction n with
-    | zero => simp [listSum]
-    | succ n ih => rw [List.range_succ, List.map_append, listSum_append, ih]; simp [listSum]
-  rw [hz]; simp
-
-/-- the multilevel price is the sum over levels of (mean fine − mean coarse) over exactly the simulated samples -/
-theorem price_is_sum_of_level_means (p : Proc) (s : St) (h : Clean p s) :
-    priceOf s = listSum ((List.range (s.L + 1)).map (fun l =>
-      listSum ((List.range (s.lv l).N).map (fun k => (p.sample l k).fine)) / (s.lv l).N
-      - listSum ((List.range (s.lv l).N).map (fun k => (p.sample l k).coarse)) / (s.lv l).N)) := by
-  unfold priceOf
-  congr 1
-  apply List.map_congr_left
-  intro l hl
-  have hl' : l ≤ s.L := by have := List.mem_range.mp hl; omega
-  rw [clean_mean p l _ (h l hl') rowFine, clean_mean p l _ (h l hl') rowCoarse]
-  rfl
-
-/-! ### non-vacuity and the negation witness for the pre-fix engine (`np.append(Nl, 1)`) -/
-
-def demoProc : Proc := ⟨fun l k => l + (k + 1) / 1024, fun l k => l - 1 + (k + 1) / 2048, fun l => 2 ^ l⟩
-def demoHist : List Oracle := [⟨[2, 2], false, [2, 2, 3]⟩, ⟨[2, 2, 3], true, []⟩]
-
-/-- a history that adds a level and then returns -/
-example : (match price demoProc 1 2 5 0 demoHist with | .ret s => s.L == 2 && ((s.lv 2).rows.length == 3) | _ => false) = true := by
-  decide +kernel
-
-/-- with the old initial counter 1 the same history returns an array whose row 0 is a placeholder counted in N_l -/
-theorem old_counter_counts_a_placeholder :
-    (match price demoProc 1 2 5 1 demoHist with
-     | .ret s => (s.lv 2).rows.head? == some none && (s.lv 2).N == 3 && (s.lv 2).sim == 2
-     | _ => false) = true := by
-  decide +kernel
-
-end Rpylib.Mlmc
+import RpylibModel.Proofs.Lemmas.C05Core
